@@ -371,6 +371,16 @@ func runE2E(seed int64, nscen int, out string) {
 			scenario(seed, policy, s, enc)
 		}
 	}
+	// range operations around RangeDeleteNum: every configuration under local_deletion; under wait_compact
+	// the LTRIMs (the clears only drop the meta record there)
+	if *e2eBig {
+		for ci, cfg := range bigConfigs() {
+			bigScenario(seed, "local", ci, cfg, enc)
+			if cfg.kind == "ltrim" && ci%2 == 0 {
+				bigScenario(seed, "compact", ci, cfg, enc)
+			}
+		}
+	}
 }
 
 func scenario(seed int64, policy string, idx int, emit func(e2eRec)) {
@@ -442,9 +452,13 @@ func scenario(seed int64, policy string, idx int, emit func(e2eRec)) {
 			}
 		}
 	}
+	e.multiReads(fmt.Sprintf("e%s%d.r0", policy[:1], idx), seed, emit)
 	// operations
 	nops := 10 + r.Pick(8)
 	for op := 0; op < nops; op++ {
+		if op == nops/2 {
+			e.multiReads(fmt.Sprintf("e%s%d.r1", policy[:1], idx), seed, emit)
+		}
 		var live []collID
 		for _, c := range e.order {
 			if e.alive[c] != nil {
@@ -523,8 +537,19 @@ func scenario(seed int64, policy string, idx int, emit func(e2eRec)) {
 			}
 			opErr = e.db.DeleteTableRange(false, c.Table, nil, nil)
 		case c.Typ == "kv":
-			rec.Op = "DelKeys"
-			_, opErr = e.db.DelKeys(raw)
+			if other != nil && variant <= 1 {
+				// a multi-key DEL with refused keys in between deletes (and counts) exactly the valid stored ones
+				rec.Op = "DelKeys(mixed)"
+				targets = append(targets, *other)
+				var n int64
+				n, opErr = e.db.DelKeys([]byte("bad"), raw, []byte(":x"), other.raw(), []byte(c.Table+":absent-key"), []byte{})
+				if opErr == nil && n != 2 {
+					rec.Logical = append(rec.Logical, fmt.Sprintf("DEL of 2 stored keys among refused and absent ones replied %d", n))
+				}
+			} else {
+				rec.Op = "DelKeys"
+				_, opErr = e.db.DelKeys(raw)
+			}
 		case c.Typ == "hash":
 			if variant == 0 && other != nil {
 				rec.Op = "HMclear"
